@@ -198,7 +198,7 @@ def run(ctx: Any, prog: Program) -> None:
     ctx.rule('C16.Q2', 'binary code tables are complete, duplicate free and fit their bit fields', floor=8)
     ctx.rule('C16.Q3', 'text name tables and keywords agree between FGD writer and parser', floor=25)
     ctx.rule('C16.Q4', 'text writers: no dangling colon, quoted slots escaped, long strings not cut inside an escape, parser options', floor=40)
-    ctx.rule('C16.Q5', 'lazy block parsing only fills placeholders, is idempotent, and is shared by get_fgd', floor=5)
+    ctx.rule('C16.Q5', 'lazy block parsing only fills placeholders with fresh objects, is idempotent, and is shared by get_fgd', floor=8)
 
     # ---- Q1 --------------------------------------------------------------------------------------------------
     vt = ffold.enum_table('ValueTypes')
@@ -440,6 +440,13 @@ def run(ctx: Any, prog: Program) -> None:
                         ctx.check('C16.Q4', esc, fgd, c, f'`{ast.unparse(inner)}` is quoted by hand without _fgd_escape()/escape_text()', func=qual, text=f'quoted slot {ast.unparse(inner)[:40]}')
     if n_slots < 3:
         raise AnalysisError('FGD writers: quoted slots not found')
+    # the escaping mode follows the caller's custom_syntax everywhere (the parser always decodes escapes)
+    for qual in ('KVDef.export', 'IODef.export', 'EntityDef.export'):
+        for c in ast.walk(fgd.func(qual)):
+            if isinstance(c, ast.Call) and dotted(c.func) == '_write_longstring' and len(c.args) >= 3:
+                ok = dotted(c.args[1]) == 'custom_syntax'
+                ctx.check('C16.Q4', ok, fgd, c, f'`{ast.unparse(c)[:90]}` fixes the escaping mode to `{ast.unparse(c.args[1])}`: with custom syntax enabled the legacy mode turns " into \'\' and leaves backslashes raw, '
+                          'which the escape-decoding parser reads back differently', func=qual, text=f'longstring mode follows custom_syntax: {ast.unparse(c.args[2])[:40]}')
     # _write_longstring
     wl = fgd.func('_write_longstring')
     wsrc = ast.unparse(wl)
@@ -471,9 +478,17 @@ def run(ctx: Any, prog: Program) -> None:
     pb, ge, gf = edb['_parse_block'], edb['get_ent'], edb['get_fgd']
     psrc = ast.unparse(pb)
     stores = [n for n in ast.walk(pb) if isinstance(n, ast.Assign) and any(isinstance(t, ast.Subscript) and dotted(t.value) == 'self.ent_map' for t in n.targets)]
-    ok = len(stores) == 1 and 'ent_unserialise(file, classname, from_dict)' in ast.unparse(stores[0])
+    ok = len(stores) == 1 and isinstance(stores[0].value, ast.Call) and dotted(stores[0].value.func) == 'ent_unserialise'
     ctx.check('C16.Q5', ok, db, pb, '_parse_block stores only freshly unserialised entities into ent_map', func='EngineDB._parse_block', text='only fresh entities stored')
-    first = pb.body[1] if isinstance(pb.body[0], ast.Expr) else pb.body[0]
+    # unserialise functions hand out objects created in that very call: a definition shared between entities (a cache) makes what
+    # one lookup returns depend on which block was parsed first, and lets one caller's edits leak into another entity
+    for fname, cname in (('kv_unserialise', 'KVDef'), ('iodef_unserialise', 'IODef'), ('ent_unserialise', 'EntityDef')):
+        fn = db.func(fname)
+        fresh = {t.id for n in ast.walk(fn) if isinstance(n, ast.Assign) and isinstance(n.value, ast.Call) and dotted(n.value.func) in (f'{cname}.__new__', cname) for t in n.targets if isinstance(t, ast.Name)}
+        rets = [r for r in ast.walk(fn) if isinstance(r, ast.Return) and r.value is not None]
+        bad = [r for r in rets if not (isinstance(r.value, ast.Name) and r.value.id in fresh) and not (isinstance(r.value, ast.Call) and dotted(r.value.func) == cname)]
+        ctx.check('C16.Q5', bool(rets) and not bad, db, bad[0] if bad else fn, f'{fname} returns `{ast.unparse(bad[0].value)[:50] if bad else "?"}`, which is not an object created in this call: definitions must not be shared between entities '
+                  '(lookup results would depend on the order of earlier lookups)', func=fname, text=f'{fname} returns a fresh {cname}')
     ok = 'classes, data = self.unparsed[index]' in psrc and any(isinstance(s, ast.If) and ast.unparse(s.test) == 'not data' and isinstance(s.body[0], ast.Return) for s in pb.body)
     ctx.check('C16.Q5', ok, db, pb, '_parse_block returns early when the block has already been parsed', func='EngineDB._parse_block', text='early return on blank slot')
     ctx.check('C16.Q5', "self.unparsed[index] = ((), b'')" in psrc, db, pb, 'the parsed block is blanked so it is never parsed twice (a second parse would replace entities other callers already hold)',
@@ -510,6 +525,9 @@ MUTANTS: List[Dict[str, Any]] = [
     {'id': 'default_raw', 'file': 'fgd.py', 'find': """file.write(f' : "{_fgd_escape(custom_syntax, default_str)}"')""", 'replace': """file.write(f' : "{default_str}"')""", 'expect': 'C16.Q4'},
     {'id': 'split_no_escape_check', 'file': 'fgd.py', 'find': "            if (len(head) - len(head.rstrip('\\\\'))) % 2:\n                split_pos -= 1\n", 'replace': "", 'expect': 'C16.Q4'},
     {'id': 'parser_no_plus', 'file': 'fgd.py', 'find': "                colon_operator=True,\n                plus_operator=True,\n            )\n            for token, token_value in tokeniser:", 'replace': "                colon_operator=True,\n            )\n            for token, token_value in tokeniser:", 'expect': 'C16.Q4'},
+    {'id': 'choices_legacy_escape', 'file': 'fgd.py', 'find': "_write_longstring(file, custom_syntax, name.replace('\\n', ' '), indent='\\t\\t')", 'replace': "_write_longstring(file, False, name.replace('\\n', ' '), indent='\\t\\t')", 'expect': 'C16.Q4'},
+    {'id': 'kv_cache', 'file': '_engine_db.py', 'find': "    # Bypass __init__, to speed up - we have a lot of these.\n    kv = KVDef.__new__(KVDef)", 'replace': "    if (name, disp_name, value_ind, default) in _KV_CACHE:\n        return _KV_CACHE[name, disp_name, value_ind, default]\n    kv = _KV_CACHE[name, disp_name, value_ind, default] = KVDef.__new__(KVDef)",
+     'extra': [{'file': '_engine_db.py', 'find': "BinStrSerialise: TypeAlias = Callable[[str], bytes]\n", 'replace': "BinStrSerialise: TypeAlias = Callable[[str], bytes]\n_KV_CACHE: dict = {}\n"}], 'expect': 'C16.Q5'},
     {'id': 'block_not_blanked', 'file': '_engine_db.py', 'find': "        self.unparsed[index] = ((), b'')\n", 'replace': "", 'expect': 'C16.Q5'},
     {'id': 'get_fgd_own_parser', 'file': '_engine_db.py', 'find': "                if data:\n                    self._parse_block(i)", 'replace': "                if data:\n                    pass", 'expect': 'C16.Q5'},
 ]
